@@ -1,6 +1,6 @@
 """C13 — Locale is a drop-in superset of LanguageIdentifier (DESIGN §4.13)."""
 import re
-from .. import px as pxm, terms, ts
+from .. import px as pxm, terms, ts, models
 from . import common, entry
 
 LI = 'unic_langid_impl'
@@ -82,6 +82,8 @@ def wiring_paths(prog, fn, flag, core, disp, wrap=None, input_param=1):
                 if not (r[0] == 'adt' and r[2] == 'Err' and terms.find_terms(r, lambda t: t[0] == 'adt' and t[2] == 'InvalidLanguage')):
                     bad.append('failure of the language identifier is not reported as InvalidLanguage: %s' % e.short(r, 160))
             elif core_tag == ['pos']:
+                if len(dc) == 0 and exhausted_shortcut(e, s, cc[0], unwrap_ok(r), core):
+                    continue      # nothing follows the identifier: the default extensions are what the extension parser returns for an exhausted iterator (PAIR-EMPTY)
                 if len(dc) != 1:
                     bad.append('the extension parser is called %d times after a successful language identifier' % len(dc))
                     continue
@@ -107,6 +109,27 @@ def wiring_paths(prog, fn, flag, core, disp, wrap=None, input_param=1):
     if not segs:
         bad.append('no path explored')
     return sorted(set(bad)), len(segs)
+
+
+def exhausted_shortcut(e, s, corecall, loc, core):
+    """after the core parser the path looked at the same iterator, found it exhausted, and returns Locale { id: parsed identifier, extensions: default }"""
+    try:
+        it = models.iter_id(e, s.state, corecall[2][0])
+    except Exception:
+        return False
+    seen_core = False
+    absent = False
+    for ev in s.state.events:
+        if ev[0] == 'call' and ev[1] in core:
+            seen_core = True
+        elif seen_core and ev[0] in ('peek', 'next') and ev[1] == it:
+            if s.state.facts.get(('tag', ('has', ev[1], ev[2]))) == 'neg':
+                absent = True
+            break
+    if not absent or loc is None:
+        return False
+    return loc[0] == 'adt' and loc[2] == 'Locale' and len(loc[3]) == 2 and loc[3][0][0] == 'pos' and loc[3][0][1][0] == 'call' and loc[3][0][1][1] in core \
+        and default_struct(loc[3][1]) and loc[3][1][0] != 'lv'
 
 
 def short_input_rejected(e, s, input_param):
